@@ -14,6 +14,7 @@ import Proofs.MarkupSuccess
 import Proofs.HistoryUndo
 import Proofs.MarkHistory
 import Proofs.InvertOk
+import Proofs.OpHistory
 import Props.C01
 namespace PM.C04
 open PM
@@ -1954,6 +1955,152 @@ theorem family_history_undo_run (S : Schema) (htr : compatTransB S = true) (hts 
   intro tr hg
   obtain ⟨_, _, _, _, hrep⟩ := history_inv S doc sts
   exact (family_history_undo S htr hts doc tr.steps tr.docs tr.doc hd hn hrep hg).1
+
+/-- **`Step.invert` does not raise on a step that applied** (oracle `invert-raises`), normal-form document.
+    Unconditional for replace, range-mark and node-mark steps.  For a replace-around step the proof covers
+    the gap between complete children (`gapClean`, what every library operation emits); for an attribute
+    step the node has to carry the attribute (`Schema.invert` models `node.attrs[name]`).
+    Full statement (not proved here for replace-around): the same without the `gapClean` hypothesis —
+    `Slice.remove_between` cannot fail on the old slice once the gap slice of the forward step was closed. -/
+theorem invert_ok_of_apply_partial (S : Schema) (s : Step) (d d' : Node) (hn : fnorm d.kids = true)
+    (h : S.apply s d = .ok d')
+    (hs : match s with
+      | .replaceAround f t gf gt _ _ _ => (f ≤ gf ∧ gf ≤ gt ∧ gt ≤ t) ∧ ∀ old, d.slice f t = .ok old →
+          gapClean old.content none (gf - f + old.openStart) (gt - f + old.openStart) = true
+      | .attr pos name _ => ∀ n, d.nodeAt pos = .ok (some n) → (n.attrs.find? (·.1 == name)).isSome = true
+      | .docAttr name _ => (d.attrs.find? (·.1 == name)).isSome = true
+      | _ => True) :
+    ∃ inv, S.invert s d = .ok inv := by
+  cases s with
+  | replace f t sl b => exact invert_ok_replace S d d' f t sl b hn h
+  | replaceAround f t gf gt sl ins b => exact invert_ok_replaceAround S d d' f t gf gt sl ins b hn hs.1 h hs.2
+  | addMark f t m => exact ⟨_, rfl⟩
+  | removeMark f t m => exact ⟨_, rfl⟩
+  | addNodeMark pos m => exact invert_ok_addNodeMark S d d' pos m h
+  | removeNodeMark pos m => exact invert_ok_removeNodeMark S d d' pos m h
+  | attr pos name value => exact attr_invert_ok S d d' pos name value h hs
+  | docAttr name value =>
+    simp only [Schema.invert] at hs ⊢
+    cases hf : d.attrs.find? (·.1 == name) with
+    | none => simp [hf] at hs
+    | some q => exact ⟨_, rfl⟩
+
+/-! ### Histories of *operations* (work package `wk-c04ops`)
+
+The property quantifies over sequences of transform operations.  `Op` / `Tr.runOp` / `Tr.runOps`
+(Proofs/OpHistory.lean) compose the step-emitting models of the operations with `Transform.step`.
+`opHistory_undo`: any list of operations that all went through is undone exactly, given per operation
+`OpResidual` — for the operations whose emitted steps are proved to satisfy `FamilyGuard` only what the
+proofs cannot supply (pair-alignment; the same-type guard of finding C04-same-type-mark-order; the
+shape of the node range), for the others `FamilyGuard` of the recorded steps (to be discharged by the
+`…Guard_family` lemmas below where they apply). -/
+
+/-- what an operation appended to the recorded history -/
+def appended (tr tr1 : Tr) : List (Step × Node) := tr1.hist.drop tr.hist.length
+
+/-- **what is asked of an operation of a run** (`tr` before, `tr1` after).
+    * `add_mark` / `remove_mark`: no inline node with content in the document (`flatInline`; no bundled schema
+      has one), the same-type guard (finding C04-same-type-mark-order) and pair-alignment per recorded step;
+    * `join`: pair-alignment;
+    * every other operation: `FamilyGuard` of the steps it recorded. -/
+def OpResidual (S : Schema) (op : Op) (tr tr1 : Tr) : Prop :=
+  match op with
+  | .mark _ => flatInline S tr.doc = true ∧
+      HistAll (fun s d d' => s.sameTypeGuard S d ∧ s.undoAligned d') (appended tr tr1) tr1.doc
+  | .join _ _ => HistAll (fun s _ d' => s.undoAligned d') (appended tr tr1) tr1.doc
+  | _ => HistAll (FamilyGuard S) (appended tr tr1) tr1.doc
+
+/-- the step `join` emits satisfies its `FamilyGuard`, given pair-alignment -/
+theorem joinGuard_family (S : Schema) (d d' : Node) (pos depth : Nat) (st : Step)
+    (hb : joinStep pos depth = .ok st) (hal : st.undoAligned d') : FamilyGuard S st d d' := by
+  unfold joinStep at hb
+  split at hb
+  · simp at hb
+  · simp only [Except.ok.injEq] at hb
+    subst hb
+    refine ⟨by simp [Slice.empty, fnorm, chainOk], ?_, hal⟩
+    show openValid S 0 0 [] = true
+    simp [openValid, rightOpenValid]
+
+theorem appended_eq {tr tr1 : Tr} {h2 : List (Step × Node)} (e : tr1.hist = tr.hist ++ h2) : appended tr tr1 = h2 := by
+  simp [appended, e]
+
+/-- one operation: the steps it recorded satisfy `FamilyGuard` -/
+theorem op_family (S : Schema) (op : Op) (tr tr1 : Tr) (hlen : tr.steps.length = tr.docs.length)
+    (hI : FamilyInv S tr.doc) (h : tr.runOp S op = some tr1) (hres : OpResidual S op tr tr1) :
+    HistAll (FamilyGuard S) (appended tr tr1) tr1.doc := by
+  cases op with
+  | mark o =>
+    obtain ⟨hflat, hta⟩ := hres
+    obtain ⟨h2, e, _, _, _, g⟩ := Tr.markOp_hist S tr tr1 o hlen hI.1 hflat (toOption_some h)
+    rw [appended_eq e] at hta ⊢
+    exact histAll_mono (fun s d d' ⟨hp, ht, ha⟩ => planGuard_family S s d d' hp ht ha) h2 tr1.doc
+      (histAll_and h2 tr1.doc g hta)
+  | join pos depth =>
+    obtain ⟨st, hb, hs⟩ := Tr.built_some h
+    obtain ⟨e, _⟩ := Tr.step_hist hlen hs
+    simp only [OpResidual] at hres
+    rw [appended_eq e] at hres ⊢
+    exact ⟨joinGuard_family S _ _ pos depth st hb hres.1, trivial⟩
+  | step s => exact hres
+  | replace f t sl => exact hres
+  | addNodeMark pos m => exact hres
+  | removeNodeMark pos sel => exact hres
+  | setNodeAttribute pos name value => exact hres
+  | split pos depth => exact hres
+  | lift a b depth target => exact hres
+  | wrap a b depth ws => exact hres
+  | setNodeMarkup pos ty attrs marks => exact hres
+  | setBlockType f t ty attrs => exact hres
+
+/-- a run of operations: what it appended replays and satisfies `FamilyGuard` -/
+theorem runOps_family (S : Schema) (htr : compatTransB S = true) (hts : TextLoop S) :
+    ∀ (ops : List Op) (tr tr' : Tr), tr.steps.length = tr.docs.length → FamilyInv S tr.doc →
+    tr.runOps S ops = some tr' → OpsAll S (OpResidual S) tr ops →
+    ∃ h2, tr'.hist = tr.hist ++ h2 ∧ tr'.steps.length = tr'.docs.length ∧
+      histNext h2 tr'.doc = tr.doc ∧ ReplayChain S h2 tr'.doc ∧ HistAll (FamilyGuard S) h2 tr'.doc
+  | [], tr, tr', hlen, _, h, _ => by
+    simp only [Tr.runOps, Option.some.injEq] at h
+    subst h
+    exact ⟨[], by simp, hlen, rfl, trivial, trivial⟩
+  | op :: ops, tr, tr', hlen, hI, h, hres => by
+    simp only [Tr.runOps] at h
+    cases h1 : tr.runOp S op with
+    | none => rw [h1] at h; simp at h
+    | some tr1 =>
+      rw [h1] at h
+      simp only [OpsAll, h1] at hres
+      obtain ⟨ha, e1, l1, n1, r1⟩ := (Tr.runOp_grows op h1).hist hlen
+      have g1 := op_family S op tr tr1 hlen hI h1 hres.1
+      rw [appended_eq e1] at g1
+      have hI1 : FamilyInv S tr1.doc :=
+        (chain_of_invariant S (FamilyInv S) (FamilyGuard S) (family_step S htr hts) ha tr1.doc
+          (by rw [n1]; exact hI) r1 g1).2
+      obtain ⟨hb, e2, l2, n2, r2, g2⟩ := runOps_family S htr hts ops tr1 tr' l1 hI1 h hres.2
+      refine ⟨ha ++ hb, by rw [e2, e1, List.append_assoc], l2, ?_, ?_, ?_⟩
+      · rw [histNext_append, n2, n1]
+      · exact (histAll_append _ ha hb tr'.doc).mpr ⟨by rw [n2]; exact r1, r2⟩
+      · exact (histAll_append _ ha hb tr'.doc).mpr ⟨by rw [n2]; exact g1, g2⟩
+
+/-- **exact undo of a history built through the transform API.**  Schema with transitive
+    `compatible_content` (`compatTransB`) and `TextLoop`; `doc` valid and in normal form; `ops` any list of
+    modelled operations (replace, mark operations, node marks, attributes, split, join, lift, wrap, set node
+    markup, set block type, raw steps) that all went through; `OpResidual` of every operation.  Then the
+    inverted recorded steps applied in reverse order to the final document restore `doc`, and the final
+    document is again valid and in normal form. -/
+theorem opHistory_undo (S : Schema) (htr : compatTransB S = true) (hts : TextLoop S)
+    (doc : Node) (ops : List Op) (tr' : Tr) (hd : S.checkNode doc = true) (hn : fnorm doc.kids = true)
+    (h : (Tr.init doc).runOps S ops = some tr')
+    (hres : OpsAll S (OpResidual S) (Tr.init doc) ops) :
+    tr'.undo S = .ok doc ∧ FamilyInv S tr'.doc := by
+  obtain ⟨h2, e, _, n, r, g⟩ := runOps_family S htr hts ops (Tr.init doc) tr' rfl ⟨hd, hn⟩ h hres
+  have e' : tr'.hist = h2 := by rw [e]; simp [Tr.hist, Tr.init]
+  obtain ⟨hc, hfin⟩ := chain_of_invariant S (FamilyInv S) (FamilyGuard S) (family_step S htr hts) h2 tr'.doc
+    (by rw [n]; exact ⟨hd, hn⟩) r g
+  refine ⟨?_, hfin⟩
+  show S.unwind tr'.hist tr'.doc = .ok doc
+  rw [e', unwind_of_chain S h2 tr'.doc hc, n]
+  rfl
 
 /-! Non-vacuity of `family_history_undo`: the one-step history "replace 2 … 3 by `x`" on
     `doc(p("ab"), p("c"))` (`tiny_fwd`, `tiny_inv` above) meets every hypothesis. -/
